@@ -436,7 +436,7 @@ func c06Table(c *Ctx) {
 		}
 		isCheckCall := func(in ssa.Instruction) bool {
 			call, ok := in.(*ssa.Call)
-			if !ok || call.Common().StaticCallee() != nil || call.Common().IsInvoke() {
+			if !ok || core.Callee(call.Common()) != nil || call.Common().IsInvoke() {
 				return false
 			}
 			fr, _, ok := core.LoadedField(call.Common().Value)
@@ -570,7 +570,7 @@ func c06Precedence(c *Ctx) {
 	cmpFn, _ := core.FnValue(sortCall.Call.Args[1])
 	if cmpFn != nil && strings.HasSuffix(cmpFn.Name(), "$thunk") {
 		for _, call := range core.Calls(cmpFn) {
-			if sc := call.Common.StaticCallee(); sc != nil {
+			if sc := core.Callee(call.Common); sc != nil {
 				cmpFn = sc
 				break
 			}
